@@ -81,7 +81,7 @@ func problems(m *ref.SpecModel) (present map[string]bool, badPatterns map[string
 				}
 			case "regex":
 				defs[d.Name] = append(defs[d.Name], def{"regex", d.Text})
-				if strings.Contains(d.Text, "(") && !strings.Contains(d.Text, ")") {
+				if (strings.Contains(d.Text, "(") && !strings.Contains(d.Text, ")")) || !ref.IsPatternSentence(d.Text) {
 					badPatterns[d.Name] = true
 				}
 			default:
@@ -454,7 +454,7 @@ func seed(t *rapid.T, m *ref.SpecModel, kind string, i int) {
 		}
 	case "pattern":
 		name := fmt.Sprintf("BP%d", i)
-		insertAt(t, m, &ref.Decl{Kind: "token", Name: name, TokKind: "regex", Text: rapid.SampledFrom([]string{"a(b", "x(", "(a|b", "[a-z](+"}).Draw(t, "bad") + fmt.Sprint(i), Semi: true}, "pos")
+		insertAt(t, m, &ref.Decl{Kind: "token", Name: name, TokKind: "regex", Text: rapid.SampledFrom([]string{"a(b", "x(", "(a|b", "[a-z](+", "a)", "]x", "=>)", "end}", "x]y", "a{2", "[a-z"}).Draw(t, "bad") + fmt.Sprint(i), Semi: true}, "pos")
 		if rapid.Bool().Draw(t, "used") {
 			appendAlt(firstRule(m), &ref.RHS{K: "tok", Name: name})
 		}
